@@ -8,7 +8,7 @@
     [valid] the type registry's validity test; hashes and array ids are non-empty lowercase hex. *)
 From Coq Require Import List Arith NArith Ascii String Bool.
 From RV Require Import Base.Decimal Base.Lit Model.Scratch
-  Proofs.ScratchStr Proofs.ScratchRun Proofs.ScratchReunite Proofs.ScratchMain.
+  Proofs.ScratchStr Proofs.ScratchRun Proofs.ScratchReunite Proofs.ScratchMain Proofs.ScratchGroup.
 Import ListNotations.
 Open Scope list_scope.
 
@@ -134,6 +134,56 @@ Proof.
   destruct Instance.reunite_result as [m [E [R1 [R2 _]]]]. exists m. auto.
 Qed.
 
+(** 4. The array path.  The arrayer bunches jobs whose description key (task full name + options)
+    is equal; the array gets ONE oneshot command naming jobs[0]'s task.  For every pending list,
+    key and (sub)group: the command names the own task of every job in the group, and element i
+    (after any schedule) yields what ITS task computes on ITS arguments ([F]: registry by full name). *)
+Theorem C32_array_group_own_task :
+  forall (J : Type) (info : J -> tinfo) pending k group j,
+  (forall x, In x pending -> NoSpace (fullname (info x))) ->
+  (forall x, In x group -> In x (group_of shipped info pending k)) -> group <> [] ->
+  In j group -> array_command_task info group = Some (fullname (info j)).
+Proof. intros J info. exact (group_own_task J info shipped eq_refl). Qed.
+
+Theorem C32_array_group_elem_eq_local :
+  forall V pbytes (dump : obj V -> pbytes) load (F : str -> obj V -> obj V -> outcome V) valid tb_of,
+  (forall o, load (dump o) = Some o) ->
+  forall (J : Type) (info : J -> tinfo) (jb : J -> job V) prefix aid pending k group cmd nc envs
+         (fs0 : fs_t pbytes) inc before i x,
+  (forall y, In y pending -> NoSpace (fullname (info y))) ->
+  (forall y, In y group -> In y (group_of shipped info pending k)) ->
+  array_command_task info group = Some cmd ->
+  let jobs := map jb group in
+  hexstr aid = true -> HexJobs V jobs -> HashDeterminesArgs V jobs ->
+  (forall i, i < List.length jobs -> get_index shipped (envs i) None = IdxOk (N.of_nat i)) ->
+  (forall j, In j jobs -> prior_ok' V pbytes load (F cmd) valid prefix nc j fs0) ->
+  Forall (fun i => i < List.length jobs) before ->
+  nth_error group i = Some x ->
+  let fs := run_seq V pbytes dump load (F cmd) valid tb_of shipped prefix aid nc envs before
+              (write_array V pbytes dump shipped prefix aid jobs inc fs0) in
+  let '(fs', r) := run_elem V pbytes dump load (F cmd) valid tb_of shipped prefix aid nc (envs i) fs in
+  cmd = fullname (info x)
+  /\ collect V pbytes load shipped prefix (j_hash (jb x)) fs' r = local V (F (fullname (info x))) (jb x).
+Proof. exact main_array_group. Qed.
+
+(** grouping by the short task name only (variant [by_name], i.e. `job.task.name`) is refuted:
+    alpha.transform and beta.transform share an array whose command names alpha.transform, and
+    element 1 returns alpha's value where beta's is expected; the shipped key separates them *)
+Theorem C32_grouping_by_name_refuted :
+  (In NameVariant.beta (group_of (by_name shipped) (fun t => t) NameVariant.pending NameVariant.k)
+   /\ array_command_task (fun t => t) (group_of (by_name shipped) (fun t => t) NameVariant.pending NameVariant.k)
+      = Some (fullname NameVariant.alpha)
+   /\ fullname NameVariant.alpha <> fullname NameVariant.beta)
+  /\ (NameVariant.remote_elem1 = CDone nat (Seq [Leaf 100; Leaf 2])
+      /\ local nat (NameVariant.F (fullname NameVariant.beta))
+           {| j_hash := lit "b2"; j_args := Leaf 2; j_kwargs := Leaf 0 |} = CDone nat (Seq [Leaf 200; Leaf 2]))
+  /\ (group_of shipped (fun t => t) NameVariant.pending (descr_key shipped NameVariant.alpha) = [NameVariant.alpha]
+      /\ group_of shipped (fun t => t) NameVariant.pending (descr_key shipped NameVariant.beta) = [NameVariant.beta]).
+Proof. exact (conj NameVariant.refuted (conj NameVariant.run_differs NameVariant.shipped_separates)). Qed.
+
+Print Assumptions C32_array_group_own_task.
+Print Assumptions C32_array_group_elem_eq_local.
+Print Assumptions C32_grouping_by_name_refuted.
 Print Assumptions C32_single_eq_local.
 Print Assumptions C32_array_elem_eq_local.
 Print Assumptions C32_array_elem_eq_local_batch.
